@@ -826,8 +826,8 @@ MANIFEST = {
 
 
 def run(ctx):
-    ctx.search("direct", cases(), quick=2200, thorough=10000)
-    ctx.search("torstate", cases(), quick=500, thorough=2500)
+    ctx.search("direct", cases(), quick=2200, thorough=20000)
+    ctx.search("torstate", cases(), quick=500, thorough=5000)
     ctx.enumerate("direct", grid_cases(), name="two-event-grid", exhaustive=True)
 
 
